@@ -177,11 +177,13 @@ def _expand(prop, tier, cases, pool):
             ps = tuple(q if q not in (0, 1) else 2 + q for q in ps)
         for j, p in enumerate(ps):
             if t != 'graph':
-                jobs.append((n, dict(scn, proto=p), None))
+                jobs.append((n, dict(scn, proto=p, **({'api': 'file'} if (n + 2 * j) % 3 == 0 else {})), None))
                 continue
             cts = (ctypes[(n + j) % 3],) if (tier == 'quick' or prop == 'C13') else ctypes
             for ct in cts:
                 s2 = dict(scn, proto=p, ctype=ct)
+                if (n + 2 * j) % 3 == 0:                 # a share of the executions through the FILE api: dump(obj, file) / load(file, patches)
+                    s2['api'] = 'file'
                 if not scn['marker'] and ((n >> 1) + j) % 2:   # duck-typed: a subclass that inherits the remote-aware __getstate__
                     s2['ovar'] = 'sub'
                 if prop == 'C13':            # plain nodes: classes with/without __getstate__/__setstate__/__reduce__/__getnewargs__/__slots__/**kw
@@ -230,7 +232,7 @@ def _judge(prop, records, name):
     """Judge distinct records only (the operators do not read protocol / container type)."""
     uniq, index = {}, []
     for r in records:
-        scn = {k: v for k, v in r['scn'].items() if k not in ('proto', 'ctype', 'pvar', 'ovar')}
+        scn = {k: v for k, v in r['scn'].items() if k not in ('proto', 'ctype', 'pvar', 'ovar', 'api')}
         key = json.dumps([scn, r['obs']], sort_keys=True)
         if key not in uniq:
             uniq[key] = {'id': 'u%d' % len(uniq), 'scn': r['scn'], 'obs': r['obs']}
@@ -254,7 +256,7 @@ def _replay(prop, replay):
     print('observed:', json.dumps(obs)[:3000])
     for clause, sig in per[0]:
         print('VIOLATION property=%s replay=(given) clause=%s' % (prop, clause))
-        print('  signature: %s|%s|%s|out=%s' % (prop, clause, sig, _outs(scn, obs)))
+        print('  signature: %s|%s|%s|out=%s|api=%s' % (prop, clause, sig, _outs(scn, obs), scn.get('api', 'loads')))
     return 1 if per[0] else 0
 
 
@@ -317,7 +319,7 @@ def run(prop, tier, replay=None):
         ev.add_tlc('judge: %s operators on %d real executions (%d distinct records)' % (prop, len(records), nuniq), rj, role='judge')
         for (n, s, m), o, fl in zip(jobs, obss, per):
             for clause, sig in fl:
-                full = '%s|%s|%s|out=%s' % (prop, clause, sig, _outs(s, o))
+                full = '%s|%s|%s|out=%s|api=%s' % (prop, clause, sig, _outs(s, o), s.get('api', 'loads'))
                 what = '%s fails: %s -> %s' % (clause, _describe(s, m), _outs(s, o))
                 violations.append(Violation(prop, full, what, {'scn': s, 'nest_at': m}))
 
@@ -326,19 +328,27 @@ def run(prop, tier, replay=None):
         mism = [k for k, ((n, s, m), o) in enumerate(zip(jobs, obss)) if not _same(cases[n]['obs'], o)]
         follows_fixed = 0
         if mism:
-            text = _cfg('RemotePickle_asis.cfg').replace('Algo = "asis"', 'Algo = "fixed"')
-            text = '\n'.join(l for l in text.splitlines() if not l.startswith('INVARIANT') or l.endswith('CaseDump')) + '\n'
-            rf = tlc.run('RemotePickleMC', cfg_text=text, env={'RP_SET': rpset}, workers=12, timeout=big, name='fixedcases', must_complete=False)
-            alt = {json.dumps(c['scn'], sort_keys=True): c['obs'] for c in _cases(rf, 'model of the corrected design (%s)' % rpset)}
-            neither = []
-            for k in mism:
-                n, s, m = jobs[k]
-                if _same(alt[json.dumps(cases[n]['scn'], sort_keys=True)], obss[k]):
-                    follows_fixed += 1
-                else:
-                    neither.append(k)
+            # the other designs the spec knows: proposed fixes applied one by one or together
+            base = '\n'.join(l for l in _cfg('RemotePickle_asis.cfg').splitlines() if not l.startswith('INVARIANT') or l.endswith('CaseDump')) + '\n'
+            variants = [base.replace('Algo = "asis"', 'Algo = "fixed"').replace('KwOnlyOK = FALSE', 'KwOnlyOK = TRUE'),
+                        base.replace('KwOnlyOK = FALSE', 'KwOnlyOK = TRUE'),
+                        base.replace('Algo = "asis"', 'Algo = "fixed"')]
+            neither = list(mism)
+            for vi, text in enumerate(variants):
+                if not neither:
+                    break
+                rf = tlc.run('RemotePickleMC', cfg_text=text, env={'RP_SET': rpset}, workers=12, timeout=big, name='altcases%d' % vi, must_complete=False)
+                alt = {json.dumps(c['scn'], sort_keys=True): c['obs'] for c in _cases(rf, 'model of a corrected design (%s)' % rpset)}
+                still = []
+                for k in neither:
+                    n, s, m = jobs[k]
+                    if _same(alt[json.dumps(cases[n]['scn'], sort_keys=True)], obss[k]):
+                        follows_fixed += 1
+                    else:
+                        still.append(k)
+                neither = still
             if follows_fixed:
-                print('NOTE: property=%s %d of %d executions follow the corrected design (Algo="fixed") '
+                print('NOTE: property=%s %d of %d executions follow a corrected design of the spec (Algo="fixed" and/or KwOnlyOK=TRUE) '
                       'instead of the model of the code as written' % (prop, follows_fixed, len(jobs)))
             for k in neither[:3]:
                 n, s, m = jobs[k]
@@ -374,7 +384,7 @@ def run(prop, tier, replay=None):
     ev.add_tlc('witnesses (every antecedent / fault reached)', rw, role='vacuity')
     reached = sorted({x[0] for x in rw.tags.get('WIT', [])})
     need = ['Concurrency', 'Copyreg', 'DumpWarning', 'Failure', 'MemoGet', 'OptInFalse', 'PatchDelivered', 'Residue', 'Siblings',
-            'StdOp', 'StdPath', 'Warning', 'AfterFail', 'Falsy', 'LateCopyreg', 'LowProto', 'FailedThenLoad', 'ParPlain', 'NestedResidue']
+            'StdOp', 'StdPath', 'Warning', 'AfterFail', 'Falsy', 'LateCopyreg', 'LowProto', 'FailedThenLoad', 'ParPlain', 'NestedResidue', 'NewArgsEx', 'KwOnly']
     if rw.error or [w for w in need if w not in reached]:
         raise MachineryError('witnesses not reached: %s (%s)' % ([w for w in need if w not in reached], rw.error))
     ev.cov['witnesses'] = {'reached': reached, 'asis_model_rejected_by': rrj.error, 'init_guard_rejected_by': rg.error, 'shared_context_rejected_by': rs.error}
@@ -421,9 +431,9 @@ def _describe(s, nest):
         return 'menu value %s (%s) wrap=%s remote=%s proto=%s%s' % (s['item'], s['kind'], s['wrap'], s['remote'], s.get('proto'),
                                                                     ' on a thread whose previous loads raised' if s.get('after') == 'fail' else '')
     nodes = ' '.join('%d:%s%s%s[%s]' % (i, nd['kind'], '' if nd['ss'] else '-nosetstate',
-                                        ('' if nd['ds'] else '-nondict') if nd.get('fs', 'no') == 'no' else '-state=%r' % (G.FALSY[nd['fs']],),
+                                        ('' if nd['ds'] else '-nondict') if nd.get('fs', 'no') == 'no' else '-state=%r' % (G.FALSY.get(nd['fs'], '{} + __getnewargs_ex__ ' + nd['fs']),),
                                         ','.join('%s->%d' % (e['k'], e['to']) for e in nd['ent'])) for i, nd in enumerate(s['g'], 1))
     loads = '; '.join('%sloads(patch=%s)%s' % ('T%d:' % L['thr'] if s['par'] else '', json.dumps(G.patch_dict(L['patch'])),
                                              '' if L['fail'] == 'none' else ' with %s@%d' % (L['fail'], L['at'])) for L in s['loads'])
-    return 'graph {%s} op=%s remote=%s %s proto=%s ctype=%s%s: %s' % (nodes, s['op'], s['remote'], 'marker' if s['marker'] else ('duck-subclass' if s.get('ovar') == 'sub' else 'duck'),
+    return 'graph {%s} op=%s%s remote=%s %s proto=%s ctype=%s%s: %s' % (nodes, s['op'], ' (dump/load on a file)' if s.get('api') == 'file' else '', s['remote'], 'marker' if s['marker'] else ('duck-subclass' if s.get('ovar') == 'sub' else 'duck'),
                                                                     s.get('proto'), s.get('ctype'), ' nest_at=%s' % nest if nest else '', loads)
